@@ -4,6 +4,9 @@
 #   scratch worktree of /repo under /var/tmp/verif-mut/<slot>/repo, builds a private copy of the harness
 #   against it (own target dir, kept between calls of the same slot for incremental rebuilds) and runs
 #   check <ID>. Evidence/replays go to the slot's private VERIF_ROOT, never to /verif.
+#   The libFuzzer crate /verif/fuzz is copied too (paths rewritten), so a thorough run's fuzz stage — or
+#   `VERIF_ROOT=$BASE/verif $BASE/verif/fuzz/run_fuzz.sh <target> <runs> <seed> [jobs]` directly — runs
+#   against the patched worktree.
 #   Never touches /repo's working tree.  Remove a slot when done:  tools/mutant.sh <slot> --clean
 set -u
 SLOT=${1:?slot}; PATCH=${2:?patch or --clean}
@@ -26,6 +29,11 @@ fi
 mkdir -p "$BASE/verif"
 rsync -a --delete --exclude 'target*' /verif/harness/ "$BASE/verif/harness/"
 find "$BASE/verif/harness" -name Cargo.toml -exec sed -i "s|\"/repo/|\"$BASE/repo/|g" {} +
+# private copy of the libFuzzer crate (thorough-tier fuzz stage; own target dir $BASE/verif/fuzz/target)
+if [ -d /verif/fuzz ]; then
+  rsync -a --delete --exclude 'target*' --exclude corpus --exclude artifacts /verif/fuzz/ "$BASE/verif/fuzz/"
+  sed -i "s|\"/repo/|\"$BASE/repo/|g" "$BASE/verif/fuzz/Cargo.toml"
+fi
 # sources that name /repo paths (e.g. include_bytes!, fs::read of fixtures) keep reading /repo: fixtures only.
 cp /verif/known_findings.json "$BASE/verif/" 2>/dev/null
 mkdir -p "$BASE/verif/replays" "$BASE/verif/evidence"
